@@ -73,6 +73,22 @@ Theorem C02_series_time_len : forall a s ax,
 Proof. exact series_time_len. Qed.
 Print Assumptions C02_series_time_len.
 
+(*    data of any dimensionality: the series depends on the data only through the length of the LAST axis
+      (channels, trials, ... in front play no role), and len(series.time) is that length *)
+Theorem C02_series_shape_only : forall sh1 sh2 a,
+  last sh1 0 = last sh2 0 -> ts_new (with_shape sh1 a) = ts_new (with_shape sh2 a).
+Proof. exact ts_shape_only. Qed.
+Theorem C02_series_time_len_any_shape : forall sh a s ax,
+  ts_new (with_shape sh a) = TOk s -> ts_time s = TOk ax -> 0 < se_dt s -> 0 <= last sh 0 ->
+  ax_n ax = last sh 0 /\ ax_dt ax = se_dt s /\ ax_t0 ax = se_t0 s /\ ax_dur ax = last sh 0 * se_dt s.
+Proof. intros sh a s ax H1 H2 H3 H4. exact (series_time_len (with_shape sh a) s ax H1 H2 H3 H4). Qed.
+Print Assumptions C02_series_time_len_any_shape.
+Example C02_series_multichannel :
+  match ts_new (with_shape [3; 8] (mk_ts_args 0 None None None (Some (VInt 2)) None (UArg Us))) with
+  | TOk s => (se_dt s =? 250000000000) && (se_len s =? 8)
+  | _ => false end = true.
+Proof. vm_compute. reflexivity. Qed.
+
 (* 3b. Specifications that describe the same sampling in another unit yield the same axis:
        a time-object interval/start displayed under any time_unit; whole numbers of two units
        that denote the same picoseconds (2 ms = 2000 us). *)
